@@ -227,6 +227,40 @@ def check(case):
                 return violation("%s differs from the raw N-Triples run: %s\n--- reference ---\n%s\n--- channel ---\n%s" % (desc, "; ".join(viol[:3]), ref_text, text), labels, nt)
             if k:
                 kn = k[0][0]
+        # ---- re-delivery: the files of one channel are replaced, at the SAME paths, by another graph (a reader that keeps
+        # handles / contents per path would answer with the first graph)
+        redo = [(i, ch) for i, ch in enumerate(case["channels"]) if ch["how"] in ("file", "files") and ch["fmt"] != "rdflib"]
+        if redo:
+            idx, ch = redo[0]
+            extra_node = ("iri", "http://ex.org/zz9")
+            cls = next((o for s_, p_, o in triples if p_ == inst_prop and o[0] == "iri"), ("iri", "http://ex.org/C0"))
+            triples2 = list(triples) + [(extra_node, inst_prop, cls), (extra_node, "http://ex.org/extra9", ("lit", "1", XSD_STRING, ""))]
+            ref2_text, c_ref2 = sut.shex(dict(kw, raw_graph=to_nt(triples2)), acceptance_threshold=thr)
+            ckw = dict(base)
+            if "namespaces_dict" in ckw:
+                ckw["namespaces_dict"] = dict(ckw["namespaces_dict"])
+            try:
+                ckw.update(channel_kwargs(ch, triples2, d, idx))
+                text2, c2 = sut.shex(ckw, acceptance_threshold=thr)
+            except Exception:
+                text2, c2, c_ref2 = None, None, True
+            if c_ref2 is None and text2 is not None:
+                labels.add("re-delivery-same-path")
+                if c2 is not None:
+                    return violation("second extraction from files replaced at the same paths raises %s: %s" % (c2.bucket, c2.msg), labels, nt)
+                try:
+                    r2, g2 = oracle.read_all([ref2_text, text2], inst_prop)
+                except oracle.OneSided as e:
+                    return violation(str(e), labels, nt)
+                except oracle.shexc.ShExCError:
+                    r2 = g2 = None
+                if r2 is not None:
+                    has_extra = any(k[0][1] == "http://ex.org/extra9" for cs in g2.values() if not isinstance(cs, list) for k in cs.cons)
+                    want_extra = any(k[0][1] == "http://ex.org/extra9" for cs in r2.values() if not isinstance(cs, list) for k in cs.cons)
+                    if has_extra != want_extra or {l: cs.n for l, cs in r2.items() if not isinstance(cs, list)} != {l: cs.n for l, cs in g2.items() if not isinstance(cs, list)}:
+                        return violation("channel %s/%s/comp=%s: after the files were replaced at the same paths by another graph, the extraction "
+                                         "does not reflect the new content\n--- expected (raw N-Triples of the new graph) ---\n%s\n--- got ---\n%s" % (
+                                             ch["fmt"], ch["how"], ch["comp"], ref2_text, text2), labels, nt)
     if nt:
         labels.add("nontrivial")
     if kn:
